@@ -83,7 +83,7 @@ impl<'a> Lexer<'a> {
                         Some('"') => {
                             self.txt.next();
                             char_data = Some(String::new());
-                            self.state = State::Quote;
+                            self.state = State::Quote { is_list: false };
                         }
                         Some(';') => self.state = State::Comment { is_list: false },
                         Some(ch) if ch.is_whitespace() => {
@@ -118,15 +118,23 @@ impl<'a> Lexer<'a> {
                         }
                     }
                 }
-                State::Quote => {
+                State::Quote { is_list } => {
                     match ch {
                         // end and gobble the '"'
                         Some('"') => {
-                            self.state = State::RestOfLine;
                             self.txt.next();
-                            return Ok(Some(Token::CharData(
-                                char_data.take().unwrap_or_else(|| "".into()),
-                            )));
+                            let quoted = char_data.take().unwrap_or_else(|| "".into());
+                            if is_list {
+                                // a quoted string is one item of the list, as it is outside of one
+                                char_data_vec
+                                    .as_mut()
+                                    .ok_or(LexerError::IllegalState("char_data_vec is None"))?
+                                    .push(quoted);
+                                self.state = State::List;
+                            } else {
+                                self.state = State::RestOfLine;
+                                return Ok(Some(Token::CharData(quoted)));
+                            }
                         }
                         Some('\\') => {
                             Self::push_to_str(&mut char_data, self.escape_seq()?)?;
@@ -183,6 +191,11 @@ impl<'a> Lexer<'a> {
                     }
                     Some(ch) if ch.is_whitespace() => {
                         self.txt.next();
+                    }
+                    Some('"') => {
+                        self.txt.next();
+                        char_data = Some(String::new());
+                        self.state = State::Quote { is_list: true };
                     }
                     Some(ch) if !ch.is_control() && !ch.is_whitespace() => {
                         char_data = Some(String::new());
@@ -343,7 +356,7 @@ pub(crate) enum State {
     //  Name,              // CharData + '.' + CharData
     Comment { is_list: bool }, // ;.*
     At,                        // @
-    Quote,                     // ".*"
+    Quote { is_list: bool },   // ".*"
     Dollar,                    // $
     EOL,                       // \n or \r\n
     EOF,
